@@ -11,7 +11,8 @@ The sums are split the way the theorems need them:
   `etheta`, `ethetap` from the engine's `theta_params`).
 
 Written over `[NumOps α]`: `Float` executes (driver `pmodel gamma`, ops `pz`/`sit`), the dual numbers over `Rat`
-(`Dual`, first-order variations) carry `virial_gibbs_duhem` in `Properties/C16.lean`. -/
+(`Dual`, first-order variations; `sqrt`, `ln`, `exp` with their derivative rules) carry `virial_gibbs_duhem` and
+`pitzer_gibbs_duhem` in `Properties/C16.lean`; `tools/gen_pitzer.py` regenerates the transcribed source statements. -/
 namespace PhreeqcVerif.Pitzer
 open NumOps
 
